@@ -37,14 +37,14 @@ def run_cli(ctx):
         p = subprocess.run([gopki, "sign"] + args + [d], input=stdin, capture_output=True, timeout=120, env=dict(os.environ, TZ="UTC"))
         return p.returncode, (p.stdout + p.stderr).decode(errors="replace")
 
-    def observe(what, d, args, flags, facts, answer_class, stdin, open_ok=True, valid_ok=True):
+    def observe(what, d, args, flags, facts, answer_class, stdin, open_ok=True, valid_ok=True, allowed=("r.pem", "s.pem")):
         before = snap(d)
         code, out = sign(d, args, stdin)
         after = snap(d)
         changed = sorted(k for k in set(before) | set(after) if before.get(k) != after.get(k))
         rows.append({"id": len(rows) + 1, "what": what, "flags": flags, "facts": facts, "answer": answer_class, "openOK": open_ok, "validOK": valid_ok,
                      "exit": code, "anyChanged": bool(changed), "rootChanged": "r.pem" in changed,
-                     "otherChanged": any(not c.endswith(".pem") or c not in ("r.pem", "s.pem") for c in changed), "changed": changed,
+                     "otherChanged": any(c not in allowed for c in changed), "changed": changed,
                      "stdout": out[-300:].replace("\x00", "")})
 
     F = lambda m=True, c=True, e=False, o=False, a=False: {"m": m, "c": c, "e": e, "o": o, "a": a}
@@ -102,6 +102,25 @@ def run_cli(ctx):
     observe("subject violates its profile", d, [], F(), absent, "y", b"y\n", valid_ok=False)
     d = fresh("profile-violation-sub", extra={"strict.yaml": prof, "s.yaml": {"version": 1, "subject": "CN=Bad Sub, OU=x", "issuer": "r", "profile": "strict"}})
     observe("a subordinate violates its profile", d, [], F(), absent, "y", b"y\n", valid_ok=False)
+    # 6. unusual but valid layouts (no dangling issuer, no cycle, no two files with one alias): the first default run writes
+    #    <config path without extension>.pem for every config and nothing else; an immediate second run - here with the
+    #    answer `y`, so that a plan would show - changes nothing
+    E = lambda cn, **kw: dict({"version": 1, "subject": "CN=%s, O=Cli" % cn}, **kw)
+    layouts = [
+        ("explicit alias differs from the file name", {"d/b.yaml": E("B", alias="zed")}),
+        ("same base name in two directories, explicit aliases", {"p/c.yaml": E("C1", alias="c1"), "q/c.yaml": E("C2", alias="c2", issuer="c1")}),
+        ("dotted base name and upper-case suffix", {"e.f.yaml": E("EF"), "deep/er/g.YAML": E("G", issuer="e.f")}),
+        ("json and yml next to each other", {"d/h.json": E("H"), "d/i.yml": E("I", issuer="h")}),
+        ("same stem, two suffixes, distinct aliases", {"d/a.yaml": E("X", alias="x"), "d/a.json": E("Y", alias="y")}),
+    ]
+    for name, files in layouts:
+        d = fresh("layout-%d" % len(rows), extra=files)
+        arts = tuple(["r.pem"] + sorted({p[: p.rindex(".")] + ".pem" for p in files}))
+        observe("layout: %s: first run" % name, d, [], F(), absent, "y", b"y\n", allowed=arts)
+        missing = [a for a in arts if not os.path.exists(os.path.join(d, a))]
+        if missing:
+            rows[-1]["rootChanged"] = False       # judged as "the planned certificate was not generated"
+        observe("layout: %s: second run" % name, d, [], F(), good, "y", b"y\n", allowed=())
     return rows
 
 
